@@ -1755,7 +1755,8 @@ fn cfg_text(cfg: &Cfg) -> String {
     )
 }
 
-/// signatures whose witness has already been minimised in this process (one shrink per signature)
+/// signatures whose witness has already been minimised in this process (one shrink per signature, at
+/// most 14 per process so that a badly broken tree does not spend the whole budget on shrinking)
 static SHRUNK: std::sync::Mutex<BTreeSet<String>> = std::sync::Mutex::new(BTreeSet::new());
 /// one witness per signature (signature -> (occurrences, minimised?, detail, replay)). `Report` keeps at
 /// most 40 violations over all signatures, so the workers collect here and `main` reports each
@@ -1812,7 +1813,7 @@ fn report_outcome(part: &str, case_seed: u64, cfg: &Cfg, o: Outcome, report: &mu
         }
         let mut items: Vec<Item> = o.log[..(v.at + 1).min(o.log.len())].to_vec();
         let mut viol = v.clone();
-        let first = do_shrink && !cfg.strict_retention && SHRUNK.lock().map(|mut g| g.insert(v.sig.clone())).unwrap_or(false);
+        let first = do_shrink && !cfg.strict_retention && SHRUNK.lock().map(|mut g| g.len() < 14 && g.insert(v.sig.clone())).unwrap_or(false);
         if first {
             let (small, best) = shrink(cfg, items.clone(), &v.sig, 60, Duration::from_secs(15));
             if let Some(b) = best {
